@@ -458,6 +458,13 @@ def check(case, impl, repo=None):
                 i += 1
                 j += 1
                 continue
+            # a repeated component of a scalar literal (`0.5f.xx`) is a vector built from the scalar (`float2(0.5f)`)
+            ms = re.match(r"^(\d[\w.]*?)\.([xr]{2,4})$", a)
+            if ms and j + 3 < len(M) and re.match(r"^(float|half|int|uint|double|bool)%d$" % len(ms.group(2)), M[j]) \
+                    and M[j + 1] == "(" and M[j + 2] == ms.group(1) and M[j + 3] == ")":
+                i += 1
+                j += 4
+                continue
             # `(e).x` of a scalar expression is `e`
             if a == "(" and b != "(":
                 d = 0
